@@ -658,6 +658,9 @@ struct Side {
 };
 
 static bool skip_bound(const std::string& sub, const std::string& desc) {
+    // development aid: VERIF_C05_ONLY=<substring> runs only the bounds whose id contains it
+    const char* only = getenv("VERIF_C05_ONLY");
+    if (only && *only && sub.find(only) == std::string::npos) return true;
     if (R->out_of_time()) {
         R->bound(sub, desc + "  [NOT STARTED: deadline]", false, 0);
         return true;
